@@ -22,21 +22,30 @@ class FactFlow:
                     self.fact_vars.add(e.left.id)
 
     def _kill(self, facts, names):
-        return frozenset(f for f in facts if f[0] not in names)
+        return frozenset(f for f in facts if f[0].split('#')[0] not in names)
 
     def refine(self, facts, expr, polarity):
         if isinstance(expr, ast.Name) and expr.id in self.fact_vars:
             if (expr.id, not polarity) in facts:
                 return None
-            return facts | {(expr.id, polarity)}
+            if polarity and (expr.id + '#isnone', True) in facts:
+                return None
+            out = facts | {(expr.id, polarity)}
+            if polarity:
+                out = out | {(expr.id + '#isnone', False)}     # a truthy value is not None
+            return out
         if isinstance(expr, ast.Compare) and len(expr.ops) == 1 and isinstance(expr.left, ast.Name) \
                 and expr.left.id in self.fact_vars and isinstance(expr.ops[0], (ast.Is, ast.IsNot)) \
                 and isinstance(expr.comparators[0], ast.Constant) and expr.comparators[0].value is None:
             is_none = isinstance(expr.ops[0], ast.Is) == polarity
+            key = expr.left.id + '#isnone'
+            if (key, not is_none) in facts:
+                return None
             if is_none:
                 if (expr.left.id, True) in facts:
                     return None
-                return facts | {(expr.left.id, False)}
+                return facts | {(expr.left.id, False), (key, True)}
+            return facts | {(key, False)}
         return facts
 
     def out_facts(self, node, facts):
